@@ -370,15 +370,16 @@ Proof.
   split; [unfold sec_ok, str_ok, sample_sec; cbn; unfold zlen; cbn; lia|]. split; reflexivity.
 Qed.
 
-(* C14_ng_prefix with WantMixedLinkType = false, for cuts at block boundaries (k = 0, any next block)
-   and inside interface description, statistics and decryption secrets blocks: the packets of the
+(* C14_ng_prefix with WantMixedLinkType = false, for every cut behind the first interface block (at
+   block boundaries and inside packet, interface description, statistics and decryption secrets
+   blocks - inside a packet block whether its link type is wanted or not): the packets of the
    complete blocks as in C14_ng_roundtrip_file_unmixed_partial; then ErrNgLinkTypeMismatch if a
    rejected packet is among them, else io.EOF at the boundary and io.ErrUnexpectedEOF inside the
-   block.  Missing for WantMixedLinkType = false: cuts inside a packet block and inside the section
-   header / first interface block (read by NewNgReader). *)
+   block.  Missing for WantMixedLinkType = false: cuts inside the section header / first interface block
+   (both read by NewNgReader). *)
 Theorem C14_ng_prefix_file_unmixed_partial : forall ro sec i0 ops pre nxt post k,
   ro_mixed ro = false -> sec_ok sec -> ops_ok [] (WAddIf i0 :: ops) -> zlen ops < 4294967290 ->
-  ops = pre ++ nxt :: post -> (k < length (enc_op nxt))%nat -> (k = 0%nat \/ not_packet nxt) ->
+  ops = pre ++ nxt :: post -> (k < length (enc_op nxt))%nat ->
   let file := write_file sec i0 ops in
   forall F, (fuel_for (zlen file) <= F)%nat ->
   let cut := (length (enc_shb sec) + length (enc_idb i0) + length (enc_ops pre) + k)%nat in
